@@ -245,6 +245,26 @@ def judge(chk, case, mvals):
                 f"C15 {a['what']}{a['args']}: output for key {bad} is {got[1].get(bad)}, the specified "
                 f"linear map gives {ref[1].get(bad)} (type {got[0]} vs {ref[0]})", rep)
             return False
+        if a["what"] in ("grad", "jac"):
+            # linearity in the cotangents at the end of the dtype's range: the same application with every
+            # cotangent multiplied by 2^-600 (exact in float64, far below the point where a 2-norm of the
+            # cotangents underflows) must return exactly 2^-600 times the result
+            sc = Fraction(1, 2 ** 600)
+            a2 = dict(a, **{"in": {k: (v[0], [x * sc for x in v[1]]) for k, v in a["in"].items()}})
+            try:
+                got2 = read_dict(apply_real(prog, ts, a2, cache), ts)[1]
+                err = None
+            except Exception as e:  # noqa: BLE001
+                got2, err = None, type(e).__name__
+            exp2 = {k: (v[0], [x * sc for x in v[1]]) for k, v in ref[1].items()}
+            if err is not None or got2 != exp2:
+                bad = None if got2 is None else next((k for k in exp2 if got2.get(k) != exp2[k]), None)
+                chk.violation(
+                    f"C15 {a['what']}{a['args']} is not linear in the cotangents: with every cotangent scaled by "
+                    f"2^-600 " + (f"it raised {err}" if err else f"the output for key {bad} is "
+                    f"{[float(x) for x in got2[bad][1]][:6]} instead of 2^-600 times {[str(x) for x in ref[1][bad][1]][:6]}"),
+                    dict(rep, scaled=True))
+                return False
         mcode, (mkind, mitems) = mv
         mi = {k: ajlib.parse_tens(tp) for (k, tp) in mitems}
         chk.cov["traces_validated_against_impl"] += 1
